@@ -56,4 +56,15 @@ example : samplePose.body.Fits samplePose.header := ⟨by decide, by decide, by 
 example : (samplePose.write?).isSome = true := by decide
 example : (samplePose.write?.bind readFull).map (·.body.missing) = some [false, true] := by decide
 
+/-! ### distinct poses never collide in bytes -/
+
+/-- **No two poses share a file**: if two well-shaped poses are written to the same bytes, they are the same pose up to what the format stores
+    (`canon`: the frame rate as the 32-bit float that is written, the missing pattern as derived from the confidences). -/
+theorem write_injective (p q : Pose) (hfp : p.body.Fits p.header) (hfq : q.body.Fits q.header) (b : Bytes)
+    (hp : p.write? = some b) (hq : q.write? = some b) :
+    ∃ w w', p.body.fps.toF32? = some w ∧ q.body.fps.toF32? = some w' ∧ p.canon w = q.canon w' := by
+  obtain ⟨w, hw, h1⟩ := write_ok_decodes p hfp b hp
+  obtain ⟨w', hw', h2⟩ := write_ok_decodes q hfq b hq
+  rw [h1] at h2
+  exact ⟨w, w', hw, hw', Option.some.inj h2⟩
 end PoseVerif.Props.C01
